@@ -412,6 +412,13 @@ def rule_r4(ck, prog, rule='C20.R4'):
             return r is not None and r[0] == '>=0' and dict(r[1]).get('param:pos') == -1 and dict(r[1]).get('1', 0) in (-1, 0)
         ok = bool(tf) and all(g.must_pass_edge(p, inrange) for p in tf)
         ck.verdict(ok, rule, f, 'find-searches-only-in-range', tf[0].n if tf else None, 'search only behind pos < size' if ok else 'find can search from a position past the end of the view')
+        # ... and over no more than what is left of the view: the count handed to Traits::find is size - pos
+        for p_ in tf:
+            if len(p_.n.get('args', [])) >= 2:
+                cntl = linear(g, rd, f, p_.n['args'][1], p_.ctx)
+                okc = cntl in ({'this.length_': 1, 'param:pos': -1}, {'this.length()': 1, 'param:pos': -1}, {'this.size()': 1, 'param:pos': -1})
+                ck.verdict(okc, rule, f, 'find-count-is-the-remainder', p_.n, 'searches size - pos characters' if okc else
+                           'find searches %s characters from data() + pos, the view has only size - pos left: a character behind the end of the view is reported as found (index >= size) instead of npos' % fmt(cntl))
 
 
 def rule_r6(ck, prog, rule='C20.R6'):
@@ -621,6 +628,34 @@ def rule_r7(ck, prog, rule='C20.R7'):
             ck.inconclusive(rule, anchor, site, None, unknown)
         else:
             ck.holds(rule, anchor, site, None, '%d accessor rows agree with std::span' % rows)
+    # element access is index-checked against the extent: the assertion in operator[] holds exactly for index < extent (table)
+    for cls in sorted(by_cls):
+        m = re.search(r',\s*(\d+)>$', cls)
+        fixed = int(m.group(1)) if m and int(m.group(1)) < (1 << 63) else None
+        for f in [x for x in by_cls[cls] if x.name == 'operator[]']:
+            g = Graph(prog, f, inline=None, sync_lambdas=False)
+            rd = reaching_defs(g)
+            asserts = [n for n in f.nodes if n['k'] == 'cond' and any(f.nodes[i]['k'] == 'call' and strip_targs(f.nodes[i].get('c', '') or '').endswith('__assert_fail')
+                                                                    for i in list(f.subtree(n['b'])) + [n['b']])]
+            cnt += 1
+            site = 'span-index-checked:%s' % ('extent %d' % fixed if fixed is not None else 'dynamic')
+            if not asserts:
+                ck.inconclusive(rule, f, site, None, 'no assertion on the index (the checked-slice model of the property cannot be decided)')
+                continue
+            bad = None
+            pname = f.params[0]['name']
+            for ext in ([fixed] if fixed is not None else [0, 1, 3]):
+                for i in sorted({0, max(ext - 1, 0), ext, ext + 1}):
+                    v = ieval(g, rd, f, asserts[0]['cnd'], g.root_ctx, {'this.extent_': ext, 'param:' + pname: i, 'this.size()': ext})
+                    if v is None:
+                        bad = bad or ('?', 'the asserted condition does not fold')
+                    elif bool(v) != (i < ext) and bad is None:
+                        bad = (asserts[0], 'with %d element(s) the index %d %s the assertion' % (ext, i, 'passes' if v else 'fails'))
+            if bad and bad[0] == '?':
+                ck.inconclusive(rule, f, site, asserts[0], bad[1])
+            else:
+                ck.verdict(bad is None, rule, f, site, asserts[0], 'operator[] asserts index < extent' if bad is None else
+                           'nostd::span::operator[]: %s: element access is not checked against the extent as the slice model (and std::span under hardening) demand' % bad[1])
     # pointer-pair constructor of the dynamic span: extent_ = last - first, data_ = first
     for f in sorted(prog.funcs.values(), key=lambda x: x.key):
         if not (strip_targs(f.qn) == 'opentelemetry::nostd::span::span' and f.kind == 'ctor' and len(f.params) == 2 and f.blocks and
@@ -658,10 +693,10 @@ def run(ck, prog):
     ck.doc('C20.R1', 'assignment typestate: object-identity guard, source taken before release; unique_ptr: ptr_ written only through reset/release/swap, reset deletes first, every assignment overload', 11)
     ck.doc('C20.R2', 'type-level witnesses (static_assert unit compiled with the build flags)', 22)
     ck.doc('C20.R3', 'string_view equality cannot hold for different lengths; compare falls back to sizes and orders characters as unsigned bytes', 3)
-    ck.doc('C20.R4', 'substr / find guards and offsets', 4)
+    ck.doc('C20.R4', 'substr / find guards, offsets and counts', 5)
     ck.doc('C20.R5', 'std::hash<nostd::string_view> depends on the characters only', 1)
     ck.doc('C20.R6', 'string_view siblings agree: relational members are the sign of compare, != / mixed == delegate to == on their own operands, compare overloads forward their sub-range pairs, find reports the offset from the view start', 16)
-    ck.doc('C20.R7', 'span accessors and the pointer-pair constructor agree with std::span (constant-folded table)', 3)
+    ck.doc('C20.R7', 'span accessors, the index assertion and the pointer-pair constructor agree with std::span / the checked-slice model (constant-folded tables)', 5)
     with ck.canary('C20.R1'):
         rule_r1(ck, prog, cls='canary::c20::bad_ptr')
     rule_r1(ck, prog)
